@@ -54,6 +54,8 @@ const curated = ["0x10", "0X1F", "0o17", "0O17", "0b11", "0B11", "0x", "0xg", "0
   "0xfffffffffffff800", "0xfffffffffffffbff", "0xfffffffffffffc00", "0x7ffffffffffffc00", "0x10000000000000000", "0x1000000000000001", "0x123456789abcdef01",
   "0b1000000000000000000000000000000000000000000000000000001", "0b10000000000000000000000000000000000000000000000000000011", "0b100000000000000000000000000000000000000000000000000000101",
   "0o400000000000000001", "0o400000000000000003", "0o777777777777777777777", "0o1000000000000000000001", "0X1FFFFFFFFFFFFF7", "0B11111111111111111111111111111111111111111111111111111",
+  // halfway cases whose tie is broken only by a digit far beyond 120 bits
+  "0x100000000000008000000000000000000001", "0x100000000000008000000000000000000000", "0x10000000000000800000000000000000000000000000000000000003", "0o10000000000000000040000000000000000000000000000001", "0b100000000000000000000000000000000000000000000000000001000000000000000000000000000000000000000000000000000000000000000000000000000000001", "0b100000000000000000000000000000000000000000000000000001000000000000000000000000000000000000000000000000000000000000000000000000000000000", "0x100000000000007fffffffffffffffffffffffff",
   "9007199254740993", "9007199254740995", "18014398509481985", "18014398509481987", "4503599627370497.5", "4503599627370496.5", "0.1e-322", "1.0000000000000002", "1.00000000000000011102230246251565404236316680908203125",
   "1.00000000000000011102230246251565404236316680908203124", "1.00000000000000011102230246251565404236316680908203126"];
 strs = strs.concat(curated);
